@@ -187,6 +187,19 @@ DropVector(r, i, sens) ==
    exp |-> [at |-> r.miss, cls |-> IF r.keyErrAt = "item" THEN "schedule-item" ELSE "missing-key",
             siblings |-> FALSE]]
 
+\* a mandatory key is dropped AND a foreign key is present in the same mapping ("never suppresses": the
+\* unknown key must not hide the missing one, e.g. credentials {username, passwd})
+DropInsVector(r, i, sens) ==
+  LET so == SOps(r, sens)
+      n == NKids(Here) IN
+  [prop |-> "C13", h |-> C13Common(r, "DropKey", sens), where |-> "with-foreign-key", key |-> Here.p[i][1], case |-> "same",
+   refops |-> so,
+   ops |-> so \o <<[op |-> "ins", path |-> path, at |-> n + 1, key |-> ForeignKey, case |-> "",
+                    val |-> [k |-> "s", v |-> "x", st |-> ""]],
+                   [op |-> "del", path |-> Append(path, i)]>>,
+   exp |-> [at |-> r.miss, cls |-> IF r.keyErrAt = "item" THEN "schedule-item" ELSE "missing-key",
+            siblings |-> FALSE]]
+
 EmitC13 ==
   /\ "C13" \in Props /\ tc = Nav
   /\ Here.k = "m" /\ HereT.k \in {"map", "raw"}
@@ -205,6 +218,9 @@ EmitC13 ==
        \/ \E i \in 1 .. n :
                /\ Breaks(r, Here.p[i][1])
                /\ tc' = ToJson(DropVector(r, i, sens))
+       \/ \E i \in 1 .. n :
+               /\ Breaks(r, Here.p[i][1]) /\ Closed(r)
+               /\ tc' = ToJson(DropInsVector(r, i, sens))
   /\ UNCHANGED <<b, path>>
 
 Next == Descend \/ EmitC03 \/ EmitC13
